@@ -1743,6 +1743,18 @@ fn check_o6(rep: &Reporter, sc: &SCtx, rt: Rt, s: &Single, sup: &Support, cn: &C
         let missing: Vec<&String> = r.lower.difference(&got).collect();
         let extra: Vec<&String> = got.difference(&r.upper).collect();
         let q = if pos == "primary" { q_primary(rt, &s.c) } else { q_secondary(rt, &s.c) };
+        // "exactly the items": a row that comes twice is one row too many
+        let first_cols: Vec<&String> = o.rows.iter().filter_map(|r| r.first()).collect();
+        if first_cols.len() != got.len() {
+            let mut seen = BTreeSet::new();
+            let dups: Vec<&String> = first_cols.iter().filter(|x| !seen.insert(**x)).copied().collect();
+            rep.fail(
+                &format!("o6|{}|{}|{}|duplicate-rows", rt.kw(), s.fine, pos),
+                tie(ord, &(&sc.name, &q)),
+                || format!("store {}: [{}] gives {} ; rows returned more than once: {:?}", sc.name, text_q(&q).unwrap_or_else(|| format!("{:?}", q)), o.show(), dups),
+                || case_json("o6", sc, &q, json!({"position": pos})),
+            );
+        }
         for (sym, items) in [("missing-items", &missing), ("extra-items", &extra)] {
             if !items.is_empty() {
                 rep.fail(
